@@ -882,13 +882,18 @@ def check_C20(tier, nproc=None):
         for which in whichs:
             lab = 'vH_C20(%s -> %s%s, entry %d)' % (small[:24].decode('latin1'), big[:40].decode('latin1'), ' +64KiB' if padded else '', which)
             c.add(Job('vH_C20', [('cbytes', small + pad), ('cbytes', big + pad), ('int', which)], label=lab, weight=len(big) + len(pad), opts=o))
-    c.bounds = {'shapes': len(shapes), 'hints': 'six size hints (reader and one pooled child) free in [0, 2^20]', 'constants': 'A = 1536 bytes per added input byte, B = 4096',
+    # one growth step of the result slice at several (concrete) fill levels: what it allocates must be paid for by
+    # the spare capacity it buys, whatever the level
+    Ls = (0, 7, 100, 5000, 200000) if tier == 'quick' else (0, 1, 7, 64, 100, 1000, 4096, 5000, 65536, 200000, 1000000)
+    for L in Ls:
+        c.add(Job('vH_C20_growstep', [('int', L)], label='vH_C20_growstep(L=%d)' % L, weight=10 + L // 1000, opts=o))
+    c.bounds = {'growth_step_levels': list(Ls), 'shapes': len(shapes), 'hints': 'six size hints (reader and one pooled child) free in [0, 2^20]', 'constants': 'A = 1536 bytes per added input byte, B = 4096',
                 'cost_model': 'make([]T, n): n*sizeof(T); make(map, n): 48n+48; append beyond capacity: 2*needed*sizeof(T); []byte->string: len; new(T): sizeof(T)'}
-    c.must_reach = ['C20.marginal']
+    c.must_reach = ['C20.marginal', 'C20.growstep']
     _std(c, ['allocation sizes follow the cost model above (runtime size classes and map bucket layout are not modelled)',
              'any non-negative size hints are reachable (decode a container of that size first); the native replay sets the fields directly',
              'marginal cost of one more member / nesting level / escape bounded by A*added bytes + B is a sufficient condition for linear total cost on these shape families'])
-    c.outside = ['document shapes outside the listed families', 'amortised growth of the nesting stack (append doubling)', 'GC behaviour, allocator size classes']
+    c.outside = ['document shapes outside the listed families', 'amortised growth of the nesting stack (append doubling; a growth step of the stack needs an input nested as deep as the stack is long)', 'growth steps at fill levels other than the listed ones', 'GC behaviour, allocator size classes']
     c.run_jobs(nproc)
     c.confirm()
     return c.finish()
